@@ -3,7 +3,6 @@ package props
 import (
 	"bytes"
 	"encoding/hex"
-	"encoding/json"
 	"fmt"
 	"io"
 	"os"
@@ -239,6 +238,42 @@ func noise16(i int) {
 	bcl.Bind(&tgt, bcl.StructBinding{Value: bcl.Block{Type: "q", Name: "n", Fields: map[string]any{"x": i, "y": "v", "z": 2.5}}})
 }
 
+// deep16 runs, once per program case, the checks that look at one Prog and
+// its results over a longer history: what a call returned is not changed by
+// later calls, and two traced runs of one Prog print the same trace.
+func deep16(c caseC16) (viol string) {
+	if c.Kind != "prog" {
+		return ""
+	}
+	defer func() {
+		if r := recover(); r != nil {
+			viol = fmt.Sprintf("panic: %v", r)
+		}
+	}()
+	var out, log bytes.Buffer
+	p, err := bcl.Parse([]byte(c.Src), "n", bcl.OptOutput(&out), bcl.OptLogger(&log))
+	if err != nil {
+		return ""
+	}
+	a := executeWith(p, &out, &log)
+	keptBlocks, keptBinding := fmt.Sprintf("%#v", a.Blocks), fmt.Sprintf("%#v", a.Binding)
+	noise16(3)
+	bcl.Interpret([]byte("def s { k = 1 }\ndef s \"z\" { k = 2 }\ndef t { k = 3 }\nbind s:last -> slice\nbind t -> slice\nbind s:first -> slice\n"), bcl.OptOutput(io.Discard), bcl.OptLogger(io.Discard))
+	if now := fmt.Sprintf("%#v", a.Binding); fmt.Sprintf("%#v", a.Blocks) != keptBlocks || now != keptBinding {
+		return fmt.Sprintf("the blocks or the binding a call returned were changed by a later call: binding was %s, is %s", clip(keptBinding, 300), clip(now, 300))
+	}
+	if len(c.Src) > 20000 {
+		return "" // traces of the big-program families run to megabytes
+	}
+	var t1, t2 bytes.Buffer
+	bcl.Execute(p, bcl.OptOutput(&t1), bcl.OptLogger(io.Discard), bcl.OptTrace(true))
+	bcl.Execute(p, bcl.OptOutput(&t2), bcl.OptLogger(io.Discard), bcl.OptTrace(true))
+	if t1.String() != t2.String() {
+		return "two traced runs of the same Prog print different traces (executing a Prog altered it): " + firstDiff(t1.String(), t2.String())
+	}
+	return ""
+}
+
 func checkC16(c caseC16, repeats int) string {
 	first := digest16(c)
 	if i := strings.Index(first, "outcome-depends-on-an-earlier-call="); i >= 0 {
@@ -249,6 +284,9 @@ func checkC16(c caseC16, repeats int) string {
 	}
 	if strings.Contains(first, "input-buffer-reuse-changes-the-program=true") {
 		return "a program parsed from a buffer that the caller reuses afterwards differs from the same program parsed from a private copy"
+	}
+	if v := deep16(c); v != "" {
+		return v
 	}
 	if i := strings.Index(first, "second-execute-differs="); i >= 0 {
 		return "executing the same Prog a second time gives a different outcome: " + clip(first[i:], 600)
@@ -422,6 +460,11 @@ func genC16(t *rapid.T) (caseC16, bool, []string) {
 			feats = append(feats, "prog:mutated")
 		}
 		lay := gen.GenLayout(t, toks, gen.LayoutOpts{Plain: 85})
+		if gen.Chance(t, 4, "farright") {
+			// positions far down and far to the right (many digits in 'line:column')
+			lay.Gaps[0] = strings.Repeat("\n", gen.Pick(t, "down", []int{0, 9, 12, 100})) + lay.Gaps[0] + strings.Repeat(" ", gen.Pick(t, "right", []int{100, 1200, 3000}))
+			feats = append(feats, "prog:wide-positions")
+		}
 		src, _ := renderChecked(toks, lay)
 		c := caseC16{Kind: "prog", Src: src}
 		nt := nmut >= 2
@@ -501,7 +544,7 @@ func TestC16(t *testing.T) {
 		var ds []string
 		rb, err := os.ReadFile(outPath)
 		must(err)
-		must(json.Unmarshal(rb, &ds))
+		must(harness.UnmarshalSafe(rb, &ds))
 		all["GOMAXPROCS="+gmp] = ds
 	}
 	for name, ds := range all {
@@ -555,7 +598,7 @@ func TestC16Digest(t *testing.T) {
 	for _, i := range order {
 		ds[i] = digest16(cases[i])
 	}
-	ob, _ := json.Marshal(ds)
+	ob, _ := harness.MarshalSafe(ds, false)
 	must(os.WriteFile(out, ob, 0o644))
 }
 
